@@ -19,10 +19,10 @@ from simkit.core import Check, Ctx, HarnessError, Violation
 
 P = "C11"
 TRANSPORTS = ("json", "pickle5", "gzip", "pickle2", "repr", "pickle4", "pickle3")
-TRANSPORT_WEIGHTS = (8, 6, 3, 4, 4, 2, 2)
+TRANSPORT_WEIGHTS = (8, 6, 3, 4, 6, 2, 2)
 TOUCH_KINDS = ("hash", "repr", "eq", "json_dict", "unitary", "sorted", "protocols")
 MAX_HELD = 8
-MAX_MESSAGES = 12
+MAX_MESSAGES = 16
 
 CORPUS_PACKAGES = (("cirq", "cirq.protocols"), ("cirq_google", "cirq_google"), ("cirq_ionq", "cirq_ionq"),
                    ("cirq_aqt", "cirq_aqt"), ("cirq_pasqal", "cirq_pasqal"), ("cirq.contrib", "cirq.contrib"))
@@ -400,9 +400,17 @@ class _Run:
     def op_export(self) -> None:
         node = self.pick_node("export.node", lambda n: n.held)
         slot = self.pick_held(node, "export.slot")
+        if self.t.chance(1, 5, "export.sweep"):
+            # the same value, in its present state, through every kind of transport (separate dumps)
+            self.ctx.probe("export-sweep")
+            for transport in ("json", "repr", TRANSPORTS[self.t.pick((1, 3, 5, 6), "export.sweep.pickle")]):
+                self.export_one(node, slot, transport)
+            return
+        self.export_one(node, slot, TRANSPORTS[self.t.weighted(TRANSPORT_WEIGHTS, "export.transport")])
+
+    def export_one(self, node: _LNode, slot: int, transport: str) -> None:
         h = node.held[slot]
         rec = self.recipes[h.rid]
-        transport = TRANSPORTS[self.t.weighted(TRANSPORT_WEIGHTS, "export.transport")]
         if transport == "repr" and not rec.get("cirq_top", False):
             transport = "json"     # printed representations of non-Cirq values are not Cirq's to keep
         self.ctx.decide("export", node.idx, slot, transport)
